@@ -76,6 +76,30 @@ func pattern(n int) []byte {
 	return b
 }
 
+// stallReader delivers the first half of data, then waits for the gate, then the rest (a slow configuration upload).
+type stallReader struct {
+	data []byte
+	gate *vrt.Gate
+	off  int
+}
+
+func (r *stallReader) Read(p []byte) (int, error) {
+	half := len(r.data) / 2
+	if r.off == half {
+		r.gate.Wait()
+	}
+	if r.off >= len(r.data) {
+		return 0, io.EOF
+	}
+	end := len(r.data)
+	if r.off < half {
+		end = half
+	}
+	n := copy(p, r.data[r.off:end])
+	r.off += n
+	return n, nil
+}
+
 type chunkReader struct {
 	b     []byte
 	chunk int
@@ -289,6 +313,31 @@ func run(sc scenario) (body func(), check func(r *vrt.Result) []finding) {
 		}
 		var ths []*vrt.Thread
 		switch {
+		case sc.Reconf == "accepted-during-upload":
+			// the second configuration's POST body stalls half way; connection 0 is accepted during the stall, then the
+			// upload completes and is accepted: connection 0 was accepted BEFORE the new configuration was and must
+			// not get its actions; connection 1 (accepted afterwards) must
+			up := &vrt.Gate{}
+			ths = append(ths, vrt.GoNamed("reconf", func() {
+				rec := httptest.NewRecorder()
+				req := httptest.NewRequest("POST", "http://martian.proxy/shape-traffic", &stallReader{data: []byte(sc.Reconf2), gate: up})
+				h.ServeHTTP(rec, req)
+				reconfStatus = rec.Code
+			}))
+			vrt.WaitQuiescent()
+			vrt.Sleep(10 * time.Millisecond)
+			g := &vrt.Gate{}
+			ths = append(ths, vrt.GoNamed("client0", func() { client(0, g) }))
+			vrt.WaitQuiescent()
+			vrt.Sleep(10 * time.Millisecond)
+			up.Open()
+			vrt.WaitQuiescent()
+			vrt.Sleep(10 * time.Millisecond)
+			g.Open()
+			for dl := vrt.Now() + 30*time.Minute; !allDone(obs) && vrt.Now() < dl; {
+				vrt.Sleep(time.Second)
+			}
+			ths = append(ths, vrt.GoNamed("client1", func() { client(1, nil) }))
 		case sc.Reconf == "accepted-after-accept" || sc.Reconf == "accepted-in-flight":
 			// connection 0 is accepted under the first configuration; the second configuration is posted
 			// after the accept (before the request is sent) or while the shaped response is in flight
@@ -327,7 +376,7 @@ func run(sc scenario) (body func(), check func(r *vrt.Result) []finding) {
 			}
 		}
 		deadline := vrt.Now() + 30*time.Minute
-		for !allDone(obs) || len(obs) < len(ths)-boolInt(sc.Reconf == "accepted-in-flight") {
+		for !allDone(obs) || len(obs) < len(ths)-boolInt(sc.Reconf == "accepted-in-flight" || sc.Reconf == "accepted-during-upload") {
 			vrt.WaitQuiescent()
 			if vrt.Now() > deadline {
 				break
@@ -601,6 +650,7 @@ func scenarios(tier string) []scenario {
 	for _, n := range []int{600, 5000} {
 		out = append(out,
 			scenario{Name: "reconf-after-accept", Shapes: []shape{{Regex: matchURL, Closes: []closeAct{{Byte: 300, Count: -1}}}}, N: n, Match: true, Conns: 2, Reconf: "accepted-after-accept", Reconf2: newCfg, Bound: 1},
+			scenario{Name: "reconf-during-upload", Shapes: []shape{{Regex: matchURL, Closes: []closeAct{{Byte: 300, Count: -1}}}}, N: n, Match: true, Conns: 2, Reconf: "accepted-during-upload", Reconf2: newCfg, Bound: 1},
 			scenario{Name: "reconf-in-flight", Shapes: []shape{{Regex: matchURL, Throttles: []throttle{{Bytes: "0-", BW: 100}}, Closes: []closeAct{{Byte: 300, Count: -1}}}}, N: n, Match: true, Conns: 2, Reconf: "accepted-in-flight", Reconf2: newCfg, Bound: 1},
 		)
 	}
